@@ -18,7 +18,7 @@ Independent expectations
 """
 import sys, io, contextlib, warnings
 warnings.filterwarnings('ignore')
-sys.path.insert(0, '/tmp/nx_pydeps')   # networkx (pure python copy), needed by SplineMethod
+sys.path.insert(0, '/verif/pydeps')   # networkx (pure python copy), needed by SplineMethod
 import numpy as np
 import casadi as ca
 from casadi import DM
